@@ -19,11 +19,11 @@ var c12Names = []string{"main.journal", "a.journal", "b.journal", "c.journal", "
 
 // include sets per file and variant (indexes into c12Names; entries >= nfiles are dropped)
 var c12Includes = [][][]int{
-	{{1}, {1, 2}, {2}, {1, 3}},    // main
-	{{}, {2}, {3}, {0}},           // a  (variant 3: cycle back to main)
-	{{}, {3}, {1}, {4}},           // b  (variant 2: cycle with a)
-	{{}, {}, {1}, {4}},            // c
-	{{}, {1}, {}, {2}},            // d
+	{{1}, {1, 2}, {2}, {1, 3}}, // main
+	{{}, {2}, {3}, {0}},        // a  (variant 3: cycle back to main)
+	{{}, {3}, {1}, {4}},        // b  (variant 2: cycle with a)
+	{{}, {}, {1}, {4}},         // c
+	{{}, {1}, {}, {2}},         // d
 }
 
 var c12Bodies = []string{
@@ -60,9 +60,9 @@ type c12Case struct {
 // canonical view of a workspace
 type c12View struct {
 	Members   []string
-	Exact     map[string]string   // facet -> canonical text, compared exactly
-	Templates map[string]string   // payee -> template
-	Formats   map[string]string   // commodity -> format
+	Exact     map[string]string // facet -> canonical text, compared exactly
+	Templates map[string]string // payee -> template
+	Formats   map[string]string // commodity -> format
 }
 
 func c12ViewOf(dir string, w *workspace.Workspace) c12View {
